@@ -315,6 +315,22 @@ def head_content_facts():
             if head.count(L) != expected:
                 problems.append(f"payloads {k1}, {k2}: line {L!r} emitted {head.count(L)} times, "
                                 f"expected {expected} (equal content once, different content never merged)")
+    # long payloads that differ only in the middle (equal length, identical first and last parts): never merged
+    for size in (4096, 16384, 16385, 20000, 70000, 200001):
+        half = (size - 40) // 2
+        a = "<style>/*" + "a" * half + "MIDDLE-ONE" + "b" * (size - 40 - half) + "*/</style>"
+        b = "<style>/*" + "a" * half + "MIDDLE-TWO" + "b" * (size - 40 - half) + "*/</style>"
+        na, nb = head_content(HTML(a)).name, head_content(HTML(b)).name
+        if na == nb:
+            problems.append(f"two different head_content payloads of {len(a)} characters (differing in the middle only) get the same name")
+        for txt, nm in ((a, na), (b, nb)):
+            if nm != "headcontent_" + hashlib.sha1(txt.encode("utf-8")).hexdigest():
+                problems.append(f"head_content name of a {len(txt)}-character payload is not the documented function of its content")
+        docl = HTMLDocument(tags.div(head_content(HTML(a)), head_content(HTML(b)), head_content(HTML(a))))
+        rl = docl.render()
+        if len(rl["dependencies"]) != 2 or rl["html"].count("MIDDLE-ONE") != 1 or rl["html"].count("MIDDLE-TWO") != 1:
+            problems.append(f"document with two long head_content payloads ({len(a)} chars): each must be included exactly once")
+        pairs += 1
     # names are a function of the rendered content only: not of the dependency render mode,
     # not of invisible nodes inside the payload
     import htmltools
